@@ -53,7 +53,8 @@ def gen_case(rng, odd):
     notes = [rng.choice([1, 1, 1, 0, 2] if odd else [1, 1, 1, 1, 0]) for _ in range(nf)]
     z = rng.choice([0, 0, 1, 2])
     isa = rng.choice([None, None, None, "x86-64-v2", "x86-64-v3", "x86-64-v4"])      # GNU ld 2.40 aborts on -z x86-64-baseline
-    return {"files": files, "notes": notes, "z": z, "isa": isa}
+    prefix = [sorted(rng.sample([1, 2], rng.randrange(0, 3))) if (odd and rng.random() < 0.5) else [] for _ in range(nf)]
+    return {"files": files, "notes": notes, "z": z, "isa": isa, "prefix": prefix}
 
 
 def build(d, c):
@@ -62,7 +63,13 @@ def build(d, c):
         s = [".text"]
         s += [".globl _start", "_start: ret"] if i == 0 else [f".globl f{i}", f"f{i}: ret"]
         if props:
-            s += ['.section .note.gnu.property,"a",@note', ".balign 8", ".long 4", f".long {16 * len(props)}", ".long 5", '.asciz "GNU"']
+            # some notes begin with generic properties whose data is not 4 bytes (GNU_PROPERTY_STACK_SIZE: 8, NO_COPY_ON_PROTECTED: 0);
+            # they sort before every feature property and must not disturb the reading of what follows
+            pre = c.get("prefix", [[]] * len(c["files"]))[i]
+            presz = sum(16 if k == 1 else 8 for k in pre)
+            s += ['.section .note.gnu.property,"a",@note', ".balign 8", ".long 4", f".long {16 * len(props) + presz}", ".long 5", '.asciz "GNU"']
+            for k in pre:
+                s += ([".long 1", ".long 8", ".quad 0x100000"] if k == 1 else [".long 2", ".long 0"])
             for t, v in props:
                 s += [f".long {t}", ".long 4", f".long {v}", ".long 0"]
         if note:
